@@ -201,6 +201,72 @@ func (f *forest) pathTrue(value []byte, R []byte) bool {
 	return f.leafBelow(r, leafHash(value))
 }
 
+// siblingsMatch: is elems (listed leaf-to-root) exactly the sequence of sibling hashes on some
+// downward path of the reference DAG from node to the leaf hash `leaf`? The sides (flag bytes) are
+// not looked at. Under collision resistance a verifier that hashes every submitted element into the
+// running hash can only reach a known root with exactly such a sequence, so a path proof that is
+// accepted although its elements are NOT the sibling sequence contains elements the verifier did
+// not bind to the root: the proof does not correspond to the claimed leaf and root.
+func (f *forest) siblingsMatch(node H, leaf H, elems []H) bool {
+	if len(elems) == 0 {
+		return node == leaf
+	}
+	ch, ok := f.children[node]
+	if !ok {
+		return false
+	}
+	top := elems[len(elems)-1]
+	rest := elems[:len(elems)-1]
+	if top == ch[1] && f.siblingsMatch(ch[0], leaf, rest) {
+		return true
+	}
+	return top == ch[0] && f.siblingsMatch(ch[1], leaf, rest)
+}
+
+// parsePath splits a submitted leaf path into its value and its complete (flag, hash) elements, by
+// the documented layout only (var-length value, then 33-byte elements; a shorter tail is not an element).
+func parsePath(b []byte) (value []byte, flags []byte, elems []H, ok bool) {
+	if len(b) == 0 {
+		return nil, nil, nil, false
+	}
+	var n uint64
+	hdr := 1
+	switch b[0] {
+	case 0xfd:
+		hdr = 3
+	case 0xfe:
+		hdr = 5
+	case 0xff:
+		hdr = 9
+	}
+	if len(b) < hdr {
+		return nil, nil, nil, false
+	}
+	switch hdr {
+	case 1:
+		n = uint64(b[0])
+	case 3:
+		n = uint64(binary.LittleEndian.Uint16(b[1:]))
+	case 5:
+		n = uint64(binary.LittleEndian.Uint32(b[1:]))
+	default:
+		n = binary.LittleEndian.Uint64(b[1:])
+	}
+	if n > uint64(len(b)-hdr) {
+		return nil, nil, nil, false
+	}
+	value = b[hdr : hdr+int(n)]
+	rest := b[hdr+int(n):]
+	for len(rest) >= 33 {
+		var h H
+		copy(h[:], rest[1:33])
+		flags = append(flags, rest[0])
+		elems = append(elems, h)
+		rest = rest[33:]
+	}
+	return value, flags, elems, true
+}
+
 // ---- encoding of the leaf-path proof consumed by merkle.MerkleProve (format from its doc comment:
 // WriteVarBytes(value) then per level one position byte and one hash)
 
@@ -617,12 +683,34 @@ func (c *ctx) tryPath(mut string, pathb []byte, root []byte, honestValue []byte)
 		if !c.f.pathTrue(honestValue, root) {
 			r.Inconclusive("oracle self-check failed: honest path claim judged false")
 		}
+		if _, _, elems, ok := parsePath(pathb); !ok || len(root) != 32 || !c.f.siblingsMatch(toH(root), leafHash(honestValue), elems) {
+			r.Inconclusive("oracle self-check failed: honest path elements judged not to be the sibling sequence")
+		}
 		return
 	}
 	if err == nil {
 		if c.f.pathTrue(val, root) {
 			r.Count("path_mutant_accepted_true", 1)
 			r.Count("path_malleable["+mut+"]", 1)
+			// second oracle: the accepted path must consist of exactly the sibling hashes between that leaf
+			// and that root (flag bytes are not compared)
+			pv, flags, elems, ok := parsePath(pathb)
+			if ok && bytes.Equal(pv, val) && len(root) == 32 {
+				if c.f.siblingsMatch(toH(root), leafHash(val), elems) {
+					r.Count("path_accepted_elements_are_the_sibling_sequence", 1)
+					for _, fl := range flags {
+						if fl >= 2 {
+							r.Count("path_accepted_with_flag_ge_2_on_a_real_right_sibling", 1)
+							break
+						}
+					}
+				} else {
+					c.violation("path-proof-accepts-foreign-elements", fmt.Sprintf("mut=%s: MerkleProve accepted a path of %d elements (flags %x) for value %x and root %x, but these elements are not the sibling hashes between that leaf and that root", mut, len(elems), flags, val, root),
+						map[string]interface{}{"api": "MerkleProve", "mutation": mut, "path": kit.Hex(pathb), "root": kit.Hex(root), "reference_leaves": c.leavesHex()})
+				}
+			} else {
+				r.Count("path_accepted_not_parsed_by_checker", 1)
+			}
 		} else {
 			c.violation("pathproof-accepts-false-claim:"+mut, fmt.Sprintf("mut=%s returned value %x root=%x", mut, val, root),
 				map[string]interface{}{"api": "MerkleProve", "mutation": mut, "path": kit.Hex(pathb), "root": kit.Hex(root), "reference_leaves": c.leavesHex()})
@@ -630,6 +718,12 @@ func (c *ctx) tryPath(mut string, pathb []byte, root []byte, honestValue []byte)
 	} else {
 		r.Count("path_mutant_rejected", 1)
 	}
+}
+
+func toH(b []byte) H {
+	var h H
+	copy(h[:], b)
+	return h
 }
 
 func (c *ctx) pathProof(i, n int) {
@@ -670,6 +764,37 @@ func (c *ctx) pathProof(i, n int) {
 		q = cp()
 		q[j].h = c.knownHash()
 		c.tryPath("replace-known", encodePath(value, q), rt[:], nil)
+	}
+	// elements carrying a flag byte that is neither LEFT(0) nor RIGHT(1), inserted at random positions
+	for rep := 0; rep < 3; rep++ {
+		q := cp()
+		k := 1 + c.rng.Intn(40)
+		if rep == 0 {
+			k = 1
+		}
+		for j := 0; j < k; j++ {
+			var h H
+			switch c.rng.Intn(3) {
+			case 0:
+				h = c.randHash()
+			case 1:
+				h = c.knownHash()
+			default:
+				if len(ps) > 0 {
+					h = ps[c.rng.Intn(len(ps))].h // duplicate of a real element
+				} else {
+					h = c.f.lh[i]
+				}
+			}
+			fl := []byte{2, 3, 0x7f, 0xff}[c.rng.Intn(4)]
+			pos := c.rng.Intn(len(q) + 1)
+			q = append(q, pair{})
+			copy(q[pos+1:], q[pos:])
+			q[pos] = pair{fl, h}
+		}
+		before := c.r.Get("path_mutant_rejected")
+		c.tryPath("insert-elements-with-flag>=2", encodePath(value, q), rt[:], nil)
+		c.r.Count("path_inserted_high_flag_elements_rejected", int(c.r.Get("path_mutant_rejected")-before))
 	}
 	c.tryPath("append-pair-random", encodePath(value, append(cp(), pair{byte(c.rng.Intn(2)), c.randHash()})), rt[:], nil)
 	c.tryPath("append-pair-known", encodePath(value, append(cp(), pair{byte(c.rng.Intn(2)), c.knownHash()})), rt[:], nil)
@@ -859,6 +984,7 @@ func TestC07(t *testing.T) {
 	r.Rule("reference forest of N leaves (random 32-byte leaves, duplicates, empty and long values, leaves whose data is left||right / 0x01||left||right of real hashes); honest RFC 6962 audit paths, leaf-path proofs and consistency proofs generated by the checker for the FULL (i,n) and (m,n) grids; each honest proof is verified, then every single mutation (per element: bit flip, drop, duplicate, replace by a known node, swap; append/prepend/empty/reverse; flag toggle / other flag values; index, size, leaf, root replaced by neighbours, other sizes' values, random, zero; trailing / truncated bytes; length-prefix shifts), 6 random multi-mutations, second-preimage attempts (interior node as leaf at every complete level, leaf as interior node) is verified with the node's verifier and every ACCEPTED claim is judged true/false in the reference hash DAG; distinct = (api, mutation, indices, proof length, verdict)")
 	r.Assume("SHA-256 (Go standard library) is collision resistant: the reference forest holds the only known preimages, so the truth of a claim is its truth in that hash DAG")
 	r.Assume("hash-level inclusion claim (h,i,n,R) means: the node reached from R by the RFC 6962 turn sequence of (i,n) is h — an inclusion proof cannot bind more than that (e.g. leaf 0 of 3 is also accepted as leaf 0 of 4 by any RFC 6962 verifier), so such acceptances are not violations")
+	r.Assume("path proofs (MerkleProve) are additionally required to consist of exactly the sibling hashes between the accepted leaf and the given root (sides / flag bytes not compared): a verifier that binds every submitted element to the root cannot accept anything else, and a path padded with unbound elements does not correspond to the claimed leaf and root")
 	r.Assume("consistency with old_size == 0 is vacuously true whatever the roots (DESIGN §8); MerkleProve reading flag bytes != 0 as RIGHT and ignoring < 33 trailing bytes is malleability, not unsoundness, when the accepted claim is true")
 	N := r.N(64, 320)
 	c := &ctx{r: r, rng: r.Rand("c07"), f: newForest(), v: merkle.NewMerkleVerifier(), N: N, seen: map[string]int{}}
@@ -922,12 +1048,18 @@ func TestC07(t *testing.T) {
 		c.leafAsInterior(l.s, l.a, l.b, l.aValue)
 	}
 	pairs := N * (N + 1) / 2
+	if r.Violations() > 0 {
+		return // vacuity guards only add noise to a run that already failed
+	}
 	r.Require("incl_honest_accepted", pairs)
 	r.Require("path_honest_accepted", pairs)
 	r.Require("cons_honest_accepted", pairs)
 	r.Require("incl_mutant_rejected", pairs*10)
 	r.Require("incl_false_claims_rejected", pairs*10)
 	r.Require("path_mutant_rejected", pairs*10)
+	r.Require("path_inserted_high_flag_elements_rejected", pairs*2)
+	r.Require("path_accepted_elements_are_the_sibling_sequence", pairs)
+	r.Require("path_accepted_with_flag_ge_2_on_a_real_right_sibling", pairs/2)
 	r.Require("cons_mutant_rejected", pairs*10)
 	r.Require("cons_false_claims_rejected", pairs*10)
 	r.Require("second_preimage_rejected", pairs)
